@@ -71,11 +71,20 @@ static Reg r_rev("utmrev", [](const Args& a) {
 static Reg r_transfer("transfer", [](const Args& a) {
   int zin = std::atoi(a[0].c_str()); bool nin = a[1] == "1"; double xin = unhx(a[2]), yin = unhx(a[3]); int zout = std::atoi(a[4].c_str()); bool nout = a[5] == "1";
   double xo = SENT, yo = SENT; int zo = -77;
-  std::string e = guarded([&] { UTMUPS::Transfer(zin, nin, xin, yin, zout, nout, xo, yo, zo); });
-  if (zin == zout) {
-    current_op() = "transfer_same " + a[0] + " " + a[1] + " " + a[2] + " " + a[3] + " " + a[5];
-    emit(e.empty() ? hx(xo) + " " + hx(yo) + " " + std::to_string(zo) : e);
+  if (zin != zout) {
+    // kernels of the bookkeeping model: what Reverse and Forward (the calls Transfer makes) do on this input
+    double klat = NAN, klon = NAN, kx = NAN, ky = NAN; int kz = -99; bool kn = false;
+    std::string er = guarded([&] { UTMUPS::Reverse(zin, nin, xin, yin, klat, klon); }), ef = "-";
+    if (er.empty()) ef = guarded([&] { UTMUPS::Forward(klat, klon, kz, kn, kx, ky, zout == UTMUPS::MATCH ? zin : zout); });
+    if (!ef.empty()) { kx = ky = NAN; kz = -99; kn = false; }
+    current_op() = "transfer_via " + a[0] + " " + a[1] + " " + a[2] + " " + a[3] + " " + a[4] + " " + a[5] + " " +
+      b(er.empty()) + " " + hx(klat) + " " + hx(klon) + " " + b(ef.empty()) + " " + std::to_string(kz) + " " + b(kn) + " " + hx(kx) + " " + hx(ky);
   }
+  std::string e = guarded([&] { UTMUPS::Transfer(zin, nin, xin, yin, zout, nout, xo, yo, zo); });
+  if (zin == zout)
+    current_op() = "transfer_same " + a[0] + " " + a[1] + " " + a[2] + " " + a[3] + " " + a[5];
+  emit(e.empty() ? hx(xo) + " " + hx(yo) + " " + std::to_string(zo) : e);
+  if (!e.empty() && (xo != SENT || yo != SENT || zo != -77)) bad("output-modified-on-throw", "UTMUPS::Transfer threw but changed an output argument");
   if (!e.empty()) { if (e != "!E") bad("foreign-exception", e); return; }
   if (zin < 0 || zo < 0) return; // INVALID in, NaN out
   // consistency with converting through geographic coordinates
